@@ -199,6 +199,38 @@ func expected(st *lib.AbsState, q query, head bool) []string {
 	}
 }
 
+// expectedOn: the oracle for one node. Where `expected` leaves the answer for the system contracts
+// 0x1/0x2 open (class hash, nonce, zero slots: 0 or nf), histories in which no block has left a
+// system contract empty are held to what the theorems say (Props.new_system_existence_nodrain): on
+// the new backend the contract exists exactly in the states in which it has a non-zero slot — class
+// hash, nonce and zero slots read 0 there and nf elsewhere (head storage: always 0); on the legacy
+// backend class hash and nonce must read 0 wherever it has a non-zero slot.
+func (e *Engine) expectedOn(n *node, st *lib.AbsState, q query, head bool) []string {
+	want := expected(st, q, head)
+	if q.Kind == "class" || q.Kind == "casm" || !isSystem(q.Addr) || e.emptied || len(want) != 2 {
+		return want
+	}
+	nonEmpty := false
+	if c := st.Contracts[*q.Addr]; c != nil {
+		for _, v := range c.Storage {
+			if !v.IsZero() {
+				nonEmpty = true
+			}
+		}
+	}
+	switch {
+	case n.kind == "new" && q.Kind == "storage" && head:
+		return []string{"0"}
+	case n.kind == "new" && nonEmpty:
+		return []string{"0"}
+	case n.kind == "new":
+		return []string{"nf"}
+	case nonEmpty && q.Kind != "storage":
+		return []string{"0"}
+	}
+	return want
+}
+
 func contains(xs []string, x string) bool {
 	for _, y := range xs {
 		if x == y {
@@ -382,7 +414,7 @@ func (e *Engine) CheckAll() {
 					continue
 				}
 				got := readOne(v.reader, q)
-				want := expected(st, q, v.label == "head")
+				want := e.expectedOn(n, st, q, v.label == "head")
 				rk := readKey(ni, v.label, v.n, qi)
 				if contains(want, got) {
 					nowOK[rk] = true
